@@ -398,7 +398,7 @@ pub fn check(tier: Tier, seed: u64) -> PropReport {
         "a contract panic (overflow-checks are on in the repository's release profile) is a clean refusal, as a wasm trap is on chain".into(),
     ];
     let cases = match tier {
-        Tier::Quick => 400_000,
+        Tier::Quick => 2_000_000,
         Tier::Thorough => 20_000_000,
     };
     let o = drive(&C18, "C18", tier, cases, seed);
